@@ -53,9 +53,11 @@ const (
 	pCloseHalf
 	pPastEOFLater
 	pCount
+	// outside the randomly drawn range (each costs its pause in wall-clock time)
+	pSlowMid = pCount
 )
 
-var c20PatName = []string{"ReadAll", "byte-at-a-time", "7-byte chunks", "4 KiB chunks", "three reads past EOF", "Close after EOF", "Close half-way", "reads past EOF after a pause"}
+var c20PatName = []string{"ReadAll", "byte-at-a-time", "7-byte chunks", "4 KiB chunks", "three reads past EOF", "Close after EOF", "Close half-way", "reads past EOF after a pause", "half, a 6 s pause, the rest"}
 
 type Digest struct {
 	Sum     string
@@ -109,6 +111,16 @@ func (ReaderSvc) Consume(ctx context.Context, r io.Reader, pattern int, tag stri
 		buf := make([]byte, 4096)
 		for err == nil {
 			_, err = read(buf)
+		}
+	case pSlowMid: // a slow consumer: the upload request has to stay parked for as long as the handler takes
+		buf := make([]byte, 4096)
+		half := -1
+		for err == nil {
+			_, err = read(buf)
+			if half < 0 && d.N >= 4096 {
+				half = d.N
+				time.Sleep(6 * time.Second)
+			}
 		}
 	case pCloseHalf:
 		buf := make([]byte, 100)
@@ -168,6 +180,13 @@ func (c20) Plan(tier string, seed int64) []core.Scenario {
 			li = rng.Intn(len(c20Lens) - 2)
 		}
 		out = append(out, core.Sc("reader").WithN("len", li).WithN("content", rng.Intn(4)).WithN("pat", rng.Intn(pCount)).WithN("order", rng.Intn(3)).WithN("conc", []int{1, 1, 4, 16}[rng.Intn(4)]).WithN("rk", rng.Intn(6)).WithS("transport", []string{"http", "ws"}[rng.Intn(2)]))
+	}
+	ns := 2
+	if tier == "thorough" {
+		ns = 6
+	}
+	for i := 0; i < ns; i++ {
+		out = append(out, core.Sc("reader").WithN("len", 13+i%3).WithN("content", i%4).WithN("pat", pSlowMid).WithN("order", i%3).WithN("conc", 1+i%2).WithN("rk", []int{0, 4, 2}[i%3]).WithS("transport", []string{"http", "ws"}[i%2]))
 	}
 	// many small calls in quick succession from several goroutines: the upload and the RPC request of a call
 	// reach the server within microseconds of each other, and calls overlap
